@@ -161,15 +161,24 @@ func build(root *core.Rand, i int, set *hplug.Set, big bool) *built {
 	return b
 }
 
-func cloneOpts(ks, st bool) []clone.Option {
-	var o []clone.Option
-	if ks {
-		o = append(o, clone.WithKeepSecrets())
+// optionLists gives every way the option set {keep-secrets if ks, keep-state if st} can be passed: every order,
+// and with an option repeated. The specification is the set (the model's option record is two booleans).
+func optionLists(ks, st bool) [][]clone.Option {
+	S, T := clone.WithKeepSecrets, clone.WithKeepState
+	switch {
+	case ks && st:
+		return [][]clone.Option{{S(), T()}, {T(), S()}, {S(), T(), S()}, {T(), S(), T()}, {T(), T(), S()}, {S(), S(), T()}}
+	case ks:
+		return [][]clone.Option{{S()}, {S(), S()}}
+	case st:
+		return [][]clone.Option{{T()}, {T(), T()}}
 	}
-	if st {
-		o = append(o, clone.WithKeepState())
-	}
-	return o
+	return [][]clone.Option{nil}
+}
+
+func cloneOpts(ks, st bool, variant int) []clone.Option {
+	ls := optionLists(ks, st)
+	return ls[variant%len(ls)]
 }
 
 var ctxKinds = []string{"live", "cancelled", "deadline-passed", "cancelled-during-call"}
@@ -199,7 +208,7 @@ func mkCtx(kind int) (context.Context, func()) {
 
 // doClone calls the real clone function of the object's kind under a Context of the given kind.
 // A nil result is returned as a nil Object.
-func doClone(obj workflow.Object, ks, st bool, ctxKind int) (res workflow.Object, panicked string) {
+func doClone(obj workflow.Object, ks, st bool, ctxKind int, variant ...int) (res workflow.Object, panicked string) {
 	defer func() {
 		if r := recover(); r != nil {
 			res, panicked = nil, fmt.Sprintf("%v\n%s", r, debug.Stack())
@@ -207,7 +216,11 @@ func doClone(obj workflow.Object, ks, st bool, ctxKind int) (res workflow.Object
 	}()
 	ctx, done := mkCtx(ctxKind)
 	defer done()
-	o := cloneOpts(ks, st)
+	v := 0
+	if len(variant) > 0 {
+		v = variant[0]
+	}
+	o := cloneOpts(ks, st, v)
 	switch x := obj.(type) {
 	case *workflow.Plan:
 		if c := clone.Plan(ctx, x, o...); c != nil {
@@ -337,6 +350,7 @@ type obsOut struct {
 	KeepSecrets bool   `json:"keep_secrets"`
 	KeepState   bool   `json:"keep_state"`
 	Ctx         string `json:"context"`
+	OptList     int    `json:"option_list"`
 	Nil         bool   `json:"nil_result"`
 	Validate    bool   `json:"validate_ok"`
 	ValidateMsg string `json:"validate_msg,omitempty"`
@@ -452,13 +466,14 @@ func main() {
 				// the Context kind rotates with the case and the option set: a case sees all four kinds, a run
 				// sees every (object kind, option set, Context kind) combination
 				ck := (i/6 + len(obsOuts)) % 4
-				oo := obsOut{KeepSecrets: ks, KeepState: st, Ctx: ctxKinds[ck]}
+				ov := (i/6 + i/24) % len(optionLists(ks, st)) // the order / repetition the options are passed in rotates too
+				oo := obsOut{KeepSecrets: ks, KeepState: st, Ctx: ctxKinds[ck], OptList: ov}
 				fail := func(code int, msg string) {
 					if oo.Go == 0 {
 						oo.Go, oo.GoMsg = code, msg
 					}
 				}
-				c, pan := doClone(b.obj, ks, st, ck)
+				c, pan := doClone(b.obj, ks, st, ck, ov)
 				alive = append(alive, c)
 				if pan != "" {
 					fail(4, "clone panicked: "+pan)
@@ -501,11 +516,21 @@ func main() {
 					}
 				}
 
+				// nor on the order in which the options are passed, nor on an option being repeated
+				for v := range optionLists(ks, st) {
+					cv, panv := doClone(b.obj, ks, st, 0, v)
+					if panv != "" {
+						fail(4, fmt.Sprintf("clone panicked with option list #%d: %s", v, panv))
+					} else if d := c18x.FirstDiff(liveDump, c18x.Dump(cv)); d != "" {
+						fail(8, fmt.Sprintf("the clone made with option list #%d (another order / a repeated option) differs from the one made with list #0: %s", v, d))
+					}
+				}
+
 				// Validate and Submit, each on a clone of its own
-				if c2, _ := doClone(b.obj, ks, st, ck); c2 != nil {
+				if c2, _ := doClone(b.obj, ks, st, ck, ov); c2 != nil {
 					oo.Validate, oo.ValidateMsg = validates(set, wrap(c2, b.isCheckA))
 				}
-				if c3, _ := doClone(b.obj, ks, st, ck); c3 != nil {
+				if c3, _ := doClone(b.obj, ks, st, ck, ov); c3 != nil {
 					oo.Submit, oo.SubmitMsg = submits(ws, wrap(c3, b.isCheckA))
 					if d := c18x.FirstDiff(origDump, c18x.Dump(b.obj)); d != "" {
 						fail(5, "submitting the clone changed the original: "+d)
@@ -516,7 +541,7 @@ func main() {
 				// is printed is never written to by the harness.
 				// (a) mutate everything in the clone, observe the original
 				bA := build(root, i, set, *big)
-				if cA, _ := doClone(bA.obj, ks, st, ck); cA != nil {
+				if cA, _ := doClone(bA.obj, ks, st, ck, ov); cA != nil {
 					snap := c18x.Dump(bA.obj)
 					func() {
 						defer func() {
@@ -532,7 +557,7 @@ func main() {
 				}
 				// (b) mutate everything in the original, observe its clone
 				bB := build(root, i, set, *big)
-				if cB, _ := doClone(bB.obj, ks, st, ck); cB != nil {
+				if cB, _ := doClone(bB.obj, ks, st, ck, ov); cB != nil {
 					snap := c18x.Dump(cB)
 					func() {
 						defer func() {
